@@ -1,10 +1,16 @@
 import SaModel.Lemmas.C10TakePush
 import SaModel.Lemmas.C03Final
 /-
-Bytes-view buffers only grow: if every view buffer of the state AFTER an operation is below 4 GiB
-(`Lemmas.C03.ViewSmall`), the same holds of the state before it.  One pass over the whole push block (same
-skeleton as `push_takeRest`); no invariant is needed.  R2 for view builders is stated under `ViewSmall` of the
-final state; this is what hands the hypothesis down to every intermediate state.
+Bytes-view builders against the specification.
+
+* the descriptor round trip: what a SUCCESSFUL `push_scalar_value` / `end_seq` wrote designates exactly the pushed bytes
+  (`view_value_exact`, `viewPushValue_exact`, `viewSeq_exact`, `view_push_row`) — the builders refuse lengths and
+  buffer offsets beyond `i32::MAX`, so nothing is truncated;
+* `WFB_small`: the state invariant implies `Lemmas.C03.ViewSmall` (every view buffer below 4 GiB);
+* `push_small`: buffers only grow — `ViewSmall` of the state AFTER an operation implies it of the state before (one pass
+  over the whole push block, same skeleton as `push_takeRest`; no invariant needed).  The R2 recursion threads
+  `ViewSmall` of the after-state down to every intermediate state with it; at the top it comes from `WFB_small`;
+* `NoView`: schemas without view columns.
 -/
 namespace SaModel.Build
 open SaModel SaModel.Spec
